@@ -31,14 +31,15 @@ def run_rules(prop: str, root: Path) -> tuple[Report, Ctx]:
     mod = importlib.import_module(f"sa.rules.{prop.lower()}")
     try:
         mod.check(rep, ctx)
+        rep.check_minima()
     except AnalysisError as exc:
         # obligations already found violated are verdicts of their rules and
-        # stay valid; the rest of the analysis could not be carried out
+        # stay valid; the rest of the analysis could not be carried out (or
+        # another rule lost instances - typically because of the very
+        # construct that is reported)
         if not rep.violations:
             raise
         rep.analysis_error = str(exc)           # type: ignore[attr-defined]
-        return rep, ctx
-    rep.check_minima()
     return rep, ctx
 
 
